@@ -65,3 +65,18 @@ func isGzipReaderOnBody(r *Request, orig io.ReadCloser) bool {
 
 // regHas: an accessor is registered under exactly this key.
 func regHas(r *entityReaderWriters, k string) bool { _, ok := r.accessors[k]; return ok }
+
+// The default provider keeps its compressors in three sync.Pools (C13, A-POOL). poolKind(p) says what a
+// pool holds — 1 gzip writers, 2 gzip readers, 3 zlib writers — as NewSyncPoolCompessors sets it up; the
+// fields are exported, so a user who replaces a pool is assumed to keep its kind.
+func poolKind(p interface{}) int { return ghostInt("poolkind", p) }
+
+func anyGzipWriter(x interface{}) bool { w, ok := x.(*gzip.Writer); return ok && w != nil }
+func anyGzipReader(x interface{}) bool { r, ok := x.(*gzip.Reader); return ok && r != nil }
+func anyZlibWriter(x interface{}) bool { w, ok := x.(*zlib.Writer); return ok && w != nil }
+
+// syncPoolsOK: the three pools exist and hold what their names say.
+func syncPoolsOK(s *SyncPoolCompessors) bool {
+	return s != nil && s.GzipWriterPool != nil && s.GzipReaderPool != nil && s.ZlibWriterPool != nil &&
+		poolKind(s.GzipWriterPool) == 1 && poolKind(s.GzipReaderPool) == 2 && poolKind(s.ZlibWriterPool) == 3
+}
